@@ -150,7 +150,9 @@ var c15Elems = []c15Elem{
 	{path: "sub/b.txt", body: "beta content in sub\n"},
 	{path: "empty", body: ""},
 	{path: ".git/x", body: "git internals FORBIDDENGIT\n"},
-	{path: ".hg/y", body: "hg internals FORBIDDENHG\n"},
+	// a regular FILE named like an ignored directory (as the .git file of a submodule or linked
+	// worktree): it is a source file, and it must not make the walk skip its later siblings
+	{path: "sub/.hg", body: "gitdir-like pointer file: ../.hg/store\n"},
 	{path: "n/.svn/z", body: "svn internals FORBIDDENSVN\n"},
 	{path: "link", symlink: true, body: "a.txt"},
 	{path: "dlink", symlink: true, body: "sub"},
@@ -1032,5 +1034,5 @@ func TestVerifC15(t *testing.T) {
 	r.Assume("the produced shards are read back through search.NewDirectorySearcher + Const(true) + Whole (C01/C09 cover that path)")
 	r.Assume("ignore-file reference implements only the generated pattern forms (literal prefix, *.ext, dir/, literal containing '.'); 1-2 byte, binary and over-limit files are expected as a 'NOT-INDEXED: ' explanation (DESIGN 8.1)")
 	r.Assume("zip archives have no hard links: the seventh member kind is a named-pipe entry there")
-	r.Finish("dir: every presence subset of {a.txt, sub/b.txt, empty, .git/x, .hg/y, n/.svn/z, link->a.txt, dlink->sub, out->outside, .sourcegraph/ignore} x 3 ignore contents (x 3 content modes in thorough) through indexArg; archive: every member list of length <= 2 (thorough 3) over {file depth 1/2/3, dir, symlink, hardlink, empty file} x {tar,tgz,zip} x strip {0,1,2} through archive.Index; cases run in worker processes (one per core). A case is non-trivial when at least one document is expected and (dir) an entry is excluded or a symlink is stored as its target, (archive) a member is filtered or renamed by strip")
+	r.Finish("dir: every presence subset of {a.txt, sub/b.txt, empty, .git/x, sub/.hg (a regular file named like an ignored directory), n/.svn/z, link->a.txt, dlink->sub, out->outside, .sourcegraph/ignore} x 3 ignore contents (x 3 content modes in thorough) through indexArg; archive: every member list of length <= 2 (thorough 3) over {file depth 1/2/3, dir, symlink, hardlink, empty file} x {tar,tgz,zip} x strip {0,1,2} through archive.Index; cases run in worker processes (one per core). A case is non-trivial when at least one document is expected and (dir) an entry is excluded or a symlink is stored as its target, (archive) a member is filtered or renamed by strip")
 }
